@@ -158,7 +158,8 @@ static int encodeAsRaw(KSI_TLV *tlv) {
 
 cleanup:
 
-	KSI_free(buf);
+	/* The buffer that still belongs to the TLV must not be released here. */
+	if (tlv == NULL || buf != tlv->buffer) KSI_free(buf);
 
 	return res;
 }
